@@ -88,6 +88,10 @@ enum Scenario {
     RotationOtherGuid, // host names a key the guest never had
     LocalKeyTruncated,
     LocalKeyEmpty,
+    /// like LocalKeyTruncated / LocalKeyEmpty, and the host hands the latched key out again when asked for a key (the
+    /// damaged file then stands under the very name the acquired key is stored under)
+    LocalKeyTruncatedHostReissues,
+    LocalKeyEmptyHostReissues,
 }
 
 #[derive(Default)]
@@ -113,6 +117,8 @@ struct HostState {
     status_incarnation: Option<u32>,
     /// key ids for which an attest request arrived in this run, in order
     attested_guids: Vec<(String, f64)>,
+    /// asked for a key while one is latched, the host hands that one out again
+    reissue_latched: bool,
 }
 
 fn guid_of(tag: u64, i: usize) -> String {
@@ -164,6 +170,10 @@ fn start_host(port: u16, listener: usize, st: Arc<Mutex<HostState>>) -> MockHost
                 _ => {}
             }
             s.acquires += 1;
+            if let (true, Some(i)) = (s.reissue_latched, s.latched) {
+                let (g, k) = s.issued[i].clone();
+                return Action::Reply(vec![simple_response(200, &[("Content-Type", "application/json")], key_json(&g, &k).to_string().as_bytes())]);
+            }
             let i = s.issued.len();
             let (g, k) = (if s.upper { guid_of(s.tag, i).to_uppercase() } else { guid_of(s.tag, i) }, secret_of(s.tag, i));
             s.issued.push((g.clone(), k.clone()));
@@ -307,6 +317,13 @@ fn prepare(slot: &Slot, sc: Scenario, fault: Fault, tag: u64) {
             let i = mk(&mut s);
             s.latched = Some(i);
             write_key(&slot.key_dir, &s.issued[i].0, &s.issued[i].1, Some(""));
+        }
+        Scenario::LocalKeyTruncatedHostReissues | Scenario::LocalKeyEmptyHostReissues => {
+            let i = mk(&mut s);
+            s.latched = Some(i);
+            s.reissue_latched = true;
+            let full = serde_json::to_string_pretty(&key_json(&s.issued[i].0, &s.issued[i].1)).unwrap();
+            write_key(&slot.key_dir, &s.issued[i].0, &s.issued[i].1, Some(if sc == Scenario::LocalKeyEmptyHostReissues { "" } else { &full[..full.len() / 2] }));
         }
     }
     s.initial_latched = s.latched;
@@ -462,7 +479,7 @@ fn main() {
         })
         .collect();
 
-    let scenarios: Vec<Scenario> = vec![Scenario::FreshLatch, Scenario::RestartWithKey, Scenario::RestartWithKeyNoIncarnation, Scenario::RestartWithKeyUpperCaseGuid, Scenario::RotationNoGuid, Scenario::RotationOtherGuid, Scenario::LocalKeyTruncated, Scenario::LocalKeyEmpty];
+    let scenarios: Vec<Scenario> = vec![Scenario::FreshLatch, Scenario::RestartWithKey, Scenario::RestartWithKeyNoIncarnation, Scenario::RestartWithKeyUpperCaseGuid, Scenario::RotationNoGuid, Scenario::RotationOtherGuid, Scenario::LocalKeyTruncated, Scenario::LocalKeyEmpty, Scenario::LocalKeyTruncatedHostReissues, Scenario::LocalKeyEmptyHostReissues];
     let faults: Vec<Fault> = if thorough {
         vec![Fault::None, Fault::Status500, Fault::StatusMalformed, Fault::Acquire500, Fault::AcquireMalformed, Fault::Attest500, Fault::AttestLatchThenReset, Fault::AttestResetBeforeLatch]
     } else {
@@ -484,11 +501,13 @@ fn main() {
 
     // phase 1: fault-free (no kill) run of every combination, twice: determinism gate + window
     let mut windows: Vec<(Scenario, Fault, u64, u64, Vec<String>)> = Vec::new();
+    let mut combos_without_window = 0u64;
     let mut evals = 0u64;
     let mut tag = 0u64;
     for (sc, f) in &combos {
         let slot = &slots[0];
         let mut seqs: Vec<(u64, u64, Vec<String>)> = Vec::new();
+        let mut fault_free_ok = true;
         for rep in 0..2 {
             tag += 1;
             prepare(slot, *sc, *f, tag);
@@ -499,7 +518,12 @@ fn main() {
             let w = window(&txt, slot.port());
             let case = json!({"scenario": format!("{:?}", sc), "host_fault": format!("{:?}", f), "kill_at": null});
             if code != Some(0) {
-                res.violation(&format!("no-recovery-without-crash:{:?}:{:?}", sc, f), &format!("without any crash the agent did not reach an accepted signed request (exit {:?}); host: acquires {} attests {} rejected {}", code, slot.st.lock().unwrap().acquires, slot.st.lock().unwrap().attests, slot.st.lock().unwrap().rejected_signed), case.clone());
+                fault_free_ok = false;
+                let (a, t, r) = {
+                    let s = slot.st.lock().unwrap();
+                    (s.acquires, s.attests, s.rejected_signed)
+                };
+                res.violation(&format!("no-recovery-without-crash:{:?}:{:?}", sc, f), &format!("without any crash the agent did not reach an accepted signed request (exit {:?}); host: acquires {a} attests {t} rejected {r}", code), case.clone());
             }
             if matches!(sc, Scenario::RestartWithKey | Scenario::RestartWithKeyNoIncarnation | Scenario::RestartWithKeyUpperCaseGuid) && slot.st.lock().unwrap().acquires != 0 {
                 res.violation(&format!("latched-key-not-reused:{:?}:{:?}:no-kill", sc, f), &format!("the agent started with the host's latched key complete in its store and requested a new key all the same ({} acquisitions)", slot.st.lock().unwrap().acquires), case.clone());
@@ -516,6 +540,12 @@ fn main() {
         let names = |v: &Vec<String>, from: u64| -> Vec<String> { v.iter().skip(from.saturating_sub(1) as usize).filter(|c| !c.starts_with('~')).map(|c| c.split('(').next().unwrap_or("").to_string()).collect() };
         if names(&seqs[0].2, seqs[0].0) != names(&seqs[1].2, seqs[1].0) {
             res.cov("window_not_deterministic", true);
+        }
+        if !fault_free_ok {
+            // already reported; a run that never gets anywhere has no window worth enumerating (each kill point would cost
+            // the full per-run time-out)
+            combos_without_window += 1;
+            continue;
         }
         windows.push((*sc, *f, seqs[0].0, seqs[0].1, seqs[0].2.clone()));
     }
@@ -611,7 +641,7 @@ fn main() {
                 if let Some(i) = latched_before {
                     // the latched key was present and complete (checked above); it must be found and used without a new acquisition
                     let file_ok = std::fs::read_to_string(format!("{}/{}.key", slot.key_dir, s.issued[i].0)).is_ok();
-                    if file_ok && s.acquires != acquires_before && !matches!(sc, Scenario::LocalKeyTruncated | Scenario::LocalKeyEmpty | Scenario::RotationOtherGuid) {
+                    if file_ok && s.acquires != acquires_before && !matches!(sc, Scenario::LocalKeyTruncated | Scenario::LocalKeyEmpty | Scenario::LocalKeyTruncatedHostReissues | Scenario::LocalKeyEmptyHostReissues | Scenario::RotationOtherGuid) {
                         out.lock().unwrap().push((format!("latched-key-not-reused:{:?}:{:?}", sc, f), format!("after a kill at {kname}#{k} the restarted agent requested a new key although the host's latched key was in the store (acquires {} -> {})", acquires_before, s.acquires), case.clone()));
                     }
                 }
@@ -746,6 +776,7 @@ fn main() {
         }
     }
     res.cov("storage_fault_runs", storage_fault_runs);
+    res.cov("combinations_not_enumerated_because_the_fault_free_run_failed", combos_without_window);
     evals += storage_fault_runs * 2;
     res.cov("retarget_rounds", rounds);
     for (sig, what, case) in out.lock().unwrap().drain(..) {
